@@ -1,4 +1,7 @@
 import Hostd.Drive.Volumes
 open Hostd
-def main : IO Unit := do
-  Proto.loop (← IO.getStdin) ({} : Drive.Volumes.DState) Drive.Volumes.step Drive.Volumes.stats
+/-- arguments: `cachecopy` (sector cache holds private copies), `rollbackchecked` (StoreSector's rollback
+is conditional) select the repaired behaviour the model expects; none = the tree as first verified -/
+def main (args : List String) : IO Unit := do
+  let f : Volumes.Facts := { Volumes.Facts.code with cacheCopies := args.contains "cachecopy", rollbackChecked := args.contains "rollbackchecked" }
+  Proto.loop (← IO.getStdin) ({ f := f } : Drive.Volumes.DState) Drive.Volumes.step Drive.Volumes.stats
